@@ -323,6 +323,14 @@ func (t *Tree) Generate(inv Invocation, tag string) (*GenResult, error) {
 		zh = zh*31 + uint64(inv.CwdMode[i])
 	}
 	env = append(env, "TZ="+zones[zh%uint64(len(zones))])
+	// What a shell does: $PWD is the logical path of the working directory (it
+	// keeps the symbolic link the user went through).
+	env = append(env, "PWD="+cwd)
+	// A third of the generations run as if started by `go generate` from a
+	// directive in some other package: GOPACKAGE, GOFILE and GOLINE are set.
+	if zh%3 == 0 {
+		env = append(env, "GOPACKAGE="+[]string{"tools", "main", "gen"}[zh%5%3], "GOFILE=generate.go", "GOLINE=3")
+	}
 	sidePath := ""
 	if inv.Op != nil {
 		os.MkdirAll(filepath.Join(t.Base, "side"), 0o755)
